@@ -258,3 +258,27 @@ func SortedCopy(in []string) []string {
 	sort.Strings(out)
 	return out
 }
+
+// CorpusFiles lists the stored inputs of past failures (/verif/corpus/<name>/*.json,
+// replay format), sorted; they run before anything generated.
+func CorpusFiles(name string) []string {
+	exe, err := os.Executable()
+	dirs := []string{filepath.Join("..", "corpus", name)}
+	if err == nil {
+		// .work/bin/<harness> -> /verif/corpus/<name>
+		dirs = append(dirs, filepath.Join(filepath.Dir(exe), "..", "..", "corpus", name))
+	}
+	for _, d := range dirs {
+		files, _ := filepath.Glob(filepath.Join(d, "*.json"))
+		if len(files) > 0 {
+			sort.Strings(files)
+			for i := range files {
+				if abs, err := filepath.Abs(files[i]); err == nil {
+					files[i] = abs
+				}
+			}
+			return files
+		}
+	}
+	return nil
+}
